@@ -32,6 +32,7 @@ type c15Case struct {
 	Opts    []string `json:"options,omitempty"`
 	Locs    []string `json:"locators"`
 	Records []int    `json:"records,omitempty"` // indices into the record menu (empty = all)
+	Mixed   int      `json:"mixed,omitempty"`   // >0: the stream of records of different lengths, in the order numbered Mixed-1
 }
 
 type c15Rec struct {
@@ -280,7 +281,65 @@ func has(opts []string, o string) bool {
 	return false
 }
 
+// c15MixedRecords: records of different lengths (and topologies), so that anything a command carries over from one
+// record to the next - a located region, an offset, a length - shows in the next record.
+func c15MixedRecords() []seqio.GenBank {
+	mk := func(name string, n int, circ bool, feats ...gts.Feature) seqio.GenBank {
+		g := c15Rec{name, circ, feats}.genbank()
+		g.Origin = seqio.NewOrigin([]byte((c15Labels + "EFIJLNOPQSWX")[:n]))
+		return g
+	}
+	return []seqio.GenBank{
+		mk("M12", 12, false, c15Feature("f1", "gene", gts.Range(2, 7)), c15Feature("f2", "CDS", gts.Complemented{Location: gts.Range(4, 10)})),
+		mk("M9", 9, true, c15Feature("f1", "gene", gts.Range(1, 4)), c15Feature("f2", "gene", gts.Complemented{Location: gts.Range(5, 9)}), c15Feature("f3", "CDS", gts.Range(2, 8))),
+		mk("M7", 7, false, c15Feature("f1", "CDS", gts.Range(0, 7))),
+		mk("M16", 16, false, c15Feature("f1", "gene", gts.Joined{gts.Range(1, 3), gts.Range(12, 15)}), c15Feature("f2", "CDS", gts.Range(13, 16)), c15Feature("f3", "gene", gts.Range(6, 9))),
+	}
+}
+
+var c15MixedOrders = [][]int{{0, 1, 2, 3}, {3, 2, 1, 0}, {2, 0, 3, 1}, {1, 3, 0, 2}}
+
+// c15MixedEval: every record of a stream is processed on its own, so the output for the stream is the outputs for its
+// records, one after the other - whatever the lengths of the records that came before.
+func c15MixedEval(c c15Case) (ok bool, sig, detail string) {
+	recs := c15MixedRecords()
+	order := c15MixedOrders[(c.Mixed-1)%len(c15MixedOrders)]
+	args := append(append([]string{c.Cmd, "--no-cache"}, c.Opts...), c.Locs...)
+	if c.Cmd == "insert" {
+		args = append(args, "@"+c15Guest)
+	}
+	var stream bytes.Buffer
+	var want bytes.Buffer
+	what := fmt.Sprintf("gts %s %s %s", c.Cmd, strings.Join(c.Opts, " "), strings.Join(c.Locs, " "))
+	for _, i := range order {
+		stream.WriteString(recs[i].String())
+		res, _ := clidrv.Run(args, []byte(recs[i].String()), clidrv.State{})
+		if res.Timeout {
+			return false, "hang", what + ": the command did not finish within 60 s on record " + recs[i].Fields.LocusName
+		}
+		if res.Exit != 0 {
+			return true, "", "" // a locator that leaves this record: outside the quantifier
+		}
+		want.Write(res.Stdout)
+	}
+	res, _ := clidrv.Run(args, stream.Bytes(), clidrv.State{})
+	if res.Timeout {
+		return false, "hang", what + ": the command did not finish within 60 s"
+	}
+	engine.Outcome(fmt.Sprintf("%x", engine.Hash(string(res.Stdout))))
+	if res.Exit != 0 {
+		return false, "stream-fails-where-records-succeed", what + fmt.Sprintf(" on the records %v as one stream: exit status %d (%s); every record on its own succeeds", order, res.Exit, strings.ReplaceAll(strings.TrimSpace(res.Stderr), "\n", " | "))
+	}
+	if !bytes.Equal(res.Stdout, want.Bytes()) {
+		return false, "stream-differs-from-records", what + fmt.Sprintf(" on records of 12, 9, 7 and 16 residues in the order %v as one stream: the output differs from the outputs for the records one by one: %s", order, firstDiff(want.String(), string(res.Stdout)))
+	}
+	return true, "", ""
+}
+
 func c15Eval(c c15Case) (ok bool, sig, detail string) {
+	if c.Mixed > 0 {
+		return c15MixedEval(c)
+	}
 	menu := c15Menu()
 	recs := c.Records
 	if len(recs) == 0 {
@@ -802,6 +861,24 @@ func init() {
 					cases = append(cases, c15Case{Cmd: "extract", Locs: []string{a, b}}, c15Case{Cmd: "extract", Opts: []string{"-v"}, Locs: []string{a, b}})
 				}
 			}
+			// records of different lengths in one stream: relative locators only (they stay in range whatever the length)
+			{
+				fmts := [][]string{nil, {"-F", "fasta"}}
+				rel := []string{"^", "$", "$-3", "^+2..$-2", "^..$", "$-2..$", "^+1", "gene", "CDS", "gene@^", "gene@$", "CDS@^..$", "gene@^+1..$-1", "@^", "@$", "@$-2..$", "^..^+3"}
+				n0 := len(cases)
+				for oi := range c15MixedOrders {
+					for _, l := range rel {
+						for _, f := range fmts {
+							cases = append(cases, c15Case{Cmd: "extract", Opts: f, Locs: []string{l}, Mixed: oi + 1}, c15Case{Cmd: "delete", Opts: f, Locs: []string{l}, Mixed: oi + 1},
+								c15Case{Cmd: "rotate", Opts: f, Locs: []string{l}, Mixed: oi + 1}, c15Case{Cmd: "split", Opts: f, Locs: []string{l}, Mixed: oi + 1},
+								c15Case{Cmd: "insert", Opts: f, Locs: []string{l}, Mixed: oi + 1})
+						}
+						cases = append(cases, c15Case{Cmd: "extract", Opts: []string{"-v"}, Locs: []string{l}, Mixed: oi + 1}, c15Case{Cmd: "delete", Opts: []string{"-e"}, Locs: []string{l}, Mixed: oi + 1},
+							c15Case{Cmd: "extract", Locs: []string{l, "gene@^..^+2"}, Mixed: oi + 1})
+					}
+				}
+				r.Extra["mixed_length_cases"] = len(cases) - n0
+			}
 			r.Extra["cases"] = len(cases)
 			r.Extra["records_per_invocation"] = len(menu)
 			var mu sync.Mutex
@@ -813,6 +890,14 @@ func init() {
 				r.States.Add(1)
 				ok, sig, detail := c15Eval(c)
 				r.Distinct.Add(mustJSON(c))
+				if c.Mixed > 0 {
+					r.Evals.Add(4)
+					r.Transitions.Add(4)
+					if !ok {
+						r.Fail(engine.Failure{Sig: sig, Case: c, Detail: detail, Size: len(mustJSON(c))})
+					}
+					return
+				}
 				if !ok {
 					// shrink to the first failing record for the replay file
 					for i := range menu {
